@@ -9,7 +9,7 @@ import numpy as np
 
 from . import argforms_a as af
 from . import qc
-from .c08 import build_state, given_Z, rho_hat, state_req
+from .c08 import SAMPLE_DTYPES, build_state, given_Z, one_real_per_sample, rho_hat, state_req
 from .common import unbits
 from .layouts import LAYOUTS, make_batch, outside_untouched, same_values
 from .qc import torch
@@ -26,12 +26,13 @@ REQUIRED_THEOREMS = [
     "C09_pure_is_state", "C09_pure_symmetric", "C09_pure_trivial", "C09_pairing", "C09_no_mutation", "C09_region",
     # audit round: the RBM density matrix is a state (C02) -> Renyi-2 >= 0 for mixed states
     "C09_mixed_is_state", "C09_purity_mixed_rbm", "C09_purity_pos_mixed_rbm", "C09_renyi_nonneg_mixed_rbm", "C09_empty_region",
+    "C09_renyi_nonneg_pure_rbm", "C09_renyi_nonneg_pure_rbm_pos",   # second audit C09-A1: hypothesis-free instances for the RBM wavefunctions
 ]
 THEOREMS = {
     "apply": "C09_purity (+ C09_no_mutation: run = per-pair value on (samples[i], samples[(i-1) mod B]); C09_region)",
     "after": "C09_no_mutation",
     "pairing": "C09_pairing",
-    "nonneg": "C09_renyi_nonneg / C09_purity_le_one (pure: C09_pure_is_state; mixed: C09_renyi_nonneg_mixed_rbm under C02's guard NZ, "
+    "nonneg": "C09_renyi_nonneg / C09_purity_le_one (pure: C09_pure_is_state, RBM instances C09_renyi_nonneg_pure_rbm / _pos; mixed: C09_renyi_nonneg_mixed_rbm under C02's guard NZ, "
               "C09_purity_pos_mixed_rbm without)",
     "sym": "C09_pure_symmetric",
     "trivial": "C09_pure_trivial",
@@ -45,7 +46,9 @@ RULE = ("case = (state kind pos/cplx/dens, n<=4 (quick: n = 1,2,3 with every reg
         "lists of numpy ints / 0-d tensors, range (arithmetic progressions), boolean masks; slices are handed over too but are NOT among the forms the "
         "property lists (int/list/array/tensor): informational counters only, no verdict; call histories on one SWAP / state / "
         "tensor object; plus a malformed "
-        "stream (negative, repeated, out-of-range indices); non-trivial iff n >= 2, A proper non-empty, parameters non-zero; "
+        "stream (negative, repeated, out-of-range indices: not subsets of the sites, outside the quantifier - applied, outcome counted, NO verdict of any level); "
+        "the random batch of every region additionally in every other element type (f32, f16, i64, i32, i16, i8, u8, bool; pure states: must give the "
+        "float64 values, one real per sample, batch unchanged; DensityMatrix refuses them: counted); non-trivial iff n >= 2, A proper non-empty, parameters non-zero; "
         "distinct by hash of (state, region, form, batch); "
         "argument forms (round 5): further integer forms of the region (np.intp / np.uint8 / np.int16 scalars, 0-d int32 ndarray / tensor, lists of np.int32 / "
         "np.intp / 0-d int32 tensors / mixed element types, tuples of numpy ints / 0-d tensors, intp / int16 / uint32 ndarrays, the empty range; a random "
@@ -236,18 +239,19 @@ def purity_np(R, n, A):
     return np.trace(rA @ rA)
 
 
-def impl_swap(st, region, samples, layout="contig", kw=False):
-    """`kw`: hand the region over by keyword, SWAP(A=region) (cases of round 5, batches of odd length), instead of positionally"""
+def impl_swap(st, region, samples, layout="contig", kw=False, dtype="f64"):
+    """`kw`: hand the region over by keyword, SWAP(A=region) (cases of round 5, batches of odd length), instead of positionally;
+    `dtype`: element type of the 0/1 batch (key of layouts.DTYPES)"""
     from qucumber.observables import SWAP
 
     n = len(samples[0]) if samples else 0
-    t, backing = make_batch(samples, n, layout) if samples else (torch.tensor(samples, dtype=torch.double).reshape(0, -1), None)
+    t, backing = make_batch(samples, n, layout, dtype) if samples else (torch.tensor(samples, dtype=torch.double).reshape(0, -1), None)
     before = t.numpy().tobytes()
     same = lambda: t.numpy().tobytes() == before and outside_untouched(backing, layout)  # noqa: E731
     try:
         r = (SWAP(A=region) if kw and len(samples) % 2 else SWAP(region)).apply(st, t)
-        ok_shape = isinstance(r, torch.Tensor) and tuple(r.shape) == (len(samples),) and r.dtype == torch.float64
-        vals = r.detach().numpy().astype(np.float64).ravel().tolist()
+        ok_shape = one_real_per_sample(r, len(samples))   # second audit, item 6: "one real number per sample" (container / precision not constrained)
+        vals = np.asarray(r.detach().cpu().to(torch.float64).numpy() if hasattr(r, "detach") else r, dtype=np.float64).ravel().tolist()
     except Exception as e:  # noqa: BLE001
         return {"error": type(e).__name__}, True, same(), t.numpy().astype(int).tolist()
     return vals, ok_shape, same(), t.numpy().astype(int).tolist()
@@ -269,6 +273,22 @@ def one_apply(ctx, st, base, form, region_list, samples, level="property", regis
         ctx.count(f"form={form} (informational, not a listed form): " + ("raises" if isinstance(vals, dict) else
                                                                           "same values as the list of sites" if same_values(vals, want) else "other values"))
         return vals
+    if level == "info":
+        # a region that is NOT a subset of the sites (negative, repeated, out-of-range indices): outside the quantifier "every subset A of sites".
+        # Applied (a crash of a later call would show); whether it raises, what it raises and which values it returns are not constrained:
+        # informational counters only, no verdict of any level (second audit, item C09-FA1); C09_region stays a theorem about the model.
+        vals = impl_swap(st, region, samples, layout)[0]
+        out = "raises" if isinstance(vals, dict) else "returns values"
+        if ctx.driver is not None:
+            model = ctx.driver.call("c09.eval", samples=samples, region=region_sites(form, region_list, n, sl),
+                                    **state_req(kind, n, base["h"], base["a"], base["am"], base["ph"]))
+            if isinstance(vals, dict) or "error" in model:
+                same = isinstance(vals, dict) and "error" in model
+            else:
+                same = same_values(vals, unbits(model["vals"]).tolist() if len(samples) else [], rtol=1e-8)
+            out += ", outcome class / values " + ("as modelled" if same else "differ from the model")
+        ctx.count(f"malformed_region (informational): {out}")
+        return vals
     vals, ok_shape, unchanged, after = impl_swap(st, region, samples, layout, kw=base.get("aseed") is not None)
     if base.get("aseed") is not None and len(samples) % 2:
         ctx.count("argform/region by keyword: SWAP(A=...)")
@@ -282,7 +302,7 @@ def one_apply(ctx, st, base, form, region_list, samples, level="property", regis
         ctx.count(f"batch={'2' if len(samples) == 2 else ('euler' if len(samples) == 4 ** n and n > 0 else 'random')}")
     ctx.oracle("apply leaves the batch unchanged (bytes)", bool(unchanged), case, sig=f"{kind}/swap/no-mutation", theorem=THEOREMS["after"])
     if not isinstance(vals, dict):
-        ctx.oracle("apply returns one float64 per sample", bool(ok_shape), case, sig=f"{kind}/swap/shape")
+        ctx.oracle("apply returns one real number per sample (B reals)", bool(ok_shape), case, sig=f"{kind}/swap/shape")
     if ctx.driver is not None:
         model = ctx.driver.call("c09.eval", samples=samples, region=region_list,
                                 **state_req(kind, n, base["h"], base["a"], base["am"], base["ph"]))
@@ -422,6 +442,24 @@ def one_state(ctx, kind, n, h, a, scale, am, ph, thorough, regions=None, aseed=N
                 ok = ok and (not isinstance(two, dict)) and abs(two[0] - ref[i]) <= 1e-9 * (1 + abs(ref[i]))
             ctx.oracle("row i is paired with row (i-1) mod B", bool(ok), {**base, "form": "list", "region": A, "samples": batch},
                        sig=f"{kind}/swap/pairing", theorem=THEOREMS["pairing"])
+        # --- the same 0/1 batch in every other element type (final pass; pure states: the clean code converts the batch when it multiplies it
+        #     with the float64 parameters, every type is accepted and gives the float64 values; DensityMatrix refuses every non-float64 batch:
+        #     outcome counted, no verdict)
+        if not isinstance(ref, dict):
+            lay = rng.choice(LAYOUTS)
+            for dt in SAMPLE_DTYPES:
+                vals, ok_shape, unchanged, _ = impl_swap(st, list(A), batch, lay, dtype=dt)
+                if kind == "dens":
+                    ctx.count(f"batch dtype {dt} / dens (no verdict: refused by the clean code): " + ("raises" if isinstance(vals, dict) else "returns values"))
+                    continue
+                dcase = {**base, "form": "list", "region": A, "samples": batch, "batch_dtype": dt, **({"layout": lay} if lay != "contig" else {})}
+                ctx.count(f"batch dtype {dt}: verdict")
+                ctx.oracle(f"apply on the batch given as {dt} leaves it unchanged (bytes)", bool(unchanged), dcase, sig=f"{kind}/swap/no-mutation/dtype",
+                           theorem=THEOREMS["after"])
+                ctx.oracle(f"SWAP(A).apply(batch of element type {dt}) == one real number per sample, the value of the same 0/1 batch given as float64",
+                           (not isinstance(vals, dict)) and bool(ok_shape) and same_values(vals, ref, rtol=1e-9), dcase,
+                           detail={"as_" + dt: vals if isinstance(vals, dict) else vals[:8], "as_float64": ref[:8]}, sig=f"{kind}/swap/batch-dtype",
+                           theorem=THEOREMS["apply"])
     # --- pure states: region <-> complement, trivial regions
     case0 = {**base, "form": "list", "region": [], "samples": [states[0], states[N - 1]]}
     if kind != "dens":
@@ -438,13 +476,13 @@ def one_state(ctx, kind, n, h, a, scale, am, ph, thorough, regions=None, aseed=N
     else:
         ctx.oracle("mixed state: empty region has purity 1", abs(est[()] - 1.0) <= 1e-8, case0, detail={"estimator_average": est[()]},
                    sig="dens/swap/trivial", theorem="C09_empty_region")
-    # --- malformed / unusual region arguments (auxiliary: outside the documented forms' normal use), in scalar and sequence forms
+    # --- malformed region arguments (not subsets of the sites: outside the quantifier; informational counters only), in scalar and sequence forms
     batch = [list(rng.choice(states)) for _ in range(3)]
     for form, lst in [("list", [-1]), ("list", [0, 0]), ("list", [n]), ("int", [n]), ("int", [-1]), ("tensor", [-n]), ("array", [-n - 1]),
                       ("list", [0, -n]), ("npint", [n]), ("npint", [-1]), ("npint32", [-n - 1]), ("array0", [n]), ("array0", [-n]),
                       ("tensor0", [n]), ("tensor0", [-1]), ("tensor0", [-n - 1]), ("tuple", [0, -n]), ("tuple", [n]), ("list_np", [-1, 0]),
                       ("list_t0", [n]), ("tensor32", [-1]), ("array32", [n + 1])]:
-        one_apply(ctx, st, base, form, lst, batch, level="aux")
+        one_apply(ctx, st, base, form, lst, batch, level="info")
         ctx.count("malformed_region")
     # --- call history on the same objects
     for _ in range(3 if thorough else 2):
@@ -616,6 +654,15 @@ def replay(ctx, case):
         exact_weights(ctx, st, base, AF)
         return
     sl = case.get("slice")
+    if case.get("batch_dtype"):
+        ref = impl_swap(st, list(case["region"]), case["samples"])[0]
+        vals, ok_shape, unchanged, _ = impl_swap(st, list(case["region"]), case["samples"], case.get("layout", "contig"), dtype=case["batch_dtype"])
+        ctx.oracle(f"apply on the batch given as {case['batch_dtype']} leaves it unchanged (bytes)", bool(unchanged), case,
+                   sig=f"{case['kind']}/swap/no-mutation/dtype", theorem=THEOREMS["after"])
+        ctx.oracle("SWAP(A).apply(batch of another element type) == one real number per sample, the value of the same 0/1 batch given as float64",
+                   (not isinstance(vals, dict)) and bool(ok_shape) and same_values(vals, ref, rtol=1e-9), case,
+                   detail={"as_dtype": vals if isinstance(vals, dict) else vals[:8], "as_float64": ref if isinstance(ref, dict) else ref[:8]},
+                   sig=f"{case['kind']}/swap/batch-dtype", theorem=THEOREMS["apply"])
     vals = one_apply(ctx, st, base, case["form"], case["region"], case["samples"], sl=sl, layout=case.get("layout", "contig"))
     if case["form"] in INFO_FORMS:
         return
